@@ -1,4 +1,5 @@
 """C08 — paragraphs map one-to-one, in order, to heading, list-item and paragraph blocks."""
+import common
 import random
 
 import apicheck as A
@@ -152,7 +153,7 @@ def blocks_spec(case, r):
 
 
 def run(out, tier, seed, model_ok):
-    n = 1200 if tier == "quick" else 20000
+    n = common.deepen(1200 if tier == "quick" else 20000)
     cs = [list_case(seed * 1000003 + i) for i in range(n)]
     run_ = A.ApiRun(out, "C08", model_ok, project, observers=[blocks_spec], name="lists")
     run_.run(cs, nontrivial=lambda c, r: sum(1 for it in c["items"] if it[0] == "li") >= 2)
